@@ -547,7 +547,8 @@ fn generate_inner(prop: &str, seed: u64) -> Scenario {
         }
         "C10" => gen_c10(seed, r),
         "C11" => {
-            let mut scn = base(seed, r, 200, 3, &Src::ALL_FINITE);
+            let srcs = with_collections(r);
+            let mut scn = base(seed, r, 200, 3, &srcs);
             scn.cs.clear();
             let c = match r.below(10) {
                 0..=6 => r.range(1, 8),
